@@ -568,7 +568,8 @@ fn record(path: &str, seed: u64, n: usize, kinds: &[String]) {
     let conc = Conc { base: 0, tick_pow2: 0, scale_pow2: 0 };
     for h in 0..n {
         let kind: &str = if kinds.is_empty() { REC_KINDS[(h + rng.below(14) as usize) % 14] } else { kinds[(h + rng.below(kinds.len() as u64) as usize) % kinds.len()].as_str() };
-        let tick: i64 = *rng.pick(&[1_000i64, 1_000_000, 1_000_000_000, 60_000_000_000]);
+        // tick 1 ns: arbitrary (odd) nanosecond intervals of at least a microsecond
+        let tick: i64 = *rng.pick(&[1i64, 1_000, 1_000_000, 1_000_000_000, 60_000_000_000]);
         let base: i64 = rng.range(-(1 << 40), 1 << 40) / tick * tick;
         let shift: i64 = rng.range(-(1 << 45), 1 << 45) / tick * tick;
         let sk = rng.range(-3, 3) as i32;
@@ -596,6 +597,8 @@ fn record(path: &str, seed: u64, n: usize, kinds: &[String]) {
         let mut shifted = make(kind, &par, &conc, None);
         let mut scaled = make(kind, &par_scaled, &conc, None);
         let mut variant = match kind { "EWMA" => Some(make("EWMAQ", &par, &conc, None)), "MA" => Some(make("MAQ", &par, &conc, None)), _ => None };
+        // C04: the same controller assembled from the crate's primitive streams
+        let mut composite = if kind == "PID" { Some(make_composite(&par, &conc)) } else { None };
         let mut cur_cmd = (cmd0.0, cmd0.1);
         let mut now_ticks: i64 = 0;
         let len = 8 + rng.below(57) as usize;
@@ -607,7 +610,7 @@ fn record(path: &str, seed: u64, n: usize, kinds: &[String]) {
                 let (k, v) = match rng.below(3) { 0 => cur_cmd, 1 => (rng.below(3) as i64, cur_cmd.1), _ => (cur_cmd.0, rng.float(-4, 6)) };
                 json!({"c": "set", "k": k, "v": v as f64, "key": f32_key(v), "e": 0, "t": 0})
             } else if roll < 72 {
-                let dt = if filt && rng.below(6) == 0 { 0 } else { match rng.below(3) { 0 => rng.range(1, 20), 1 => rng.range(20, 1 << 12), _ => rng.range(1 << 12, 1 << 20) } };
+                let dt = if filt && rng.below(6) == 0 { 0 } else if tick == 1 { rng.range(1_000, 1 << 22) } else { match rng.below(3) { 0 => rng.range(1, 20), 1 => rng.range(20, 1 << 12), _ => rng.range(1 << 12, 1 << 20) } };
                 now_ticks += dt;
                 if is_cmdpid {
                     json!({"c": "some", "v": [rng.float(-4, 6) as f64, rng.float(-4, 6) as f64, rng.float(-4, 6) as f64], "e": 0, "t": now_ticks})
@@ -660,6 +663,7 @@ fn record(path: &str, seed: u64, n: usize, kinds: &[String]) {
             let _ = drive(&mut shifted, &ev, Time(t_real.0 + shift));
             let _ = drive(&mut scaled, &scaled_ev, t_real);
             if let Some(v) = variant.as_mut() { let _ = drive(v, &ev, t_real); }
+            if let Some(c) = composite.as_mut() { let _ = drive(c, &ev, t_real); }
             if is_set { cur_cmd = (i(&inner, "k"), inner["v"].as_f64().unwrap() as f32); }
             let get = |m: &Machine| catch(|| (m.get)()).map(|x| x.0).unwrap_or(Obs::Panic("panic".into()));
             let o = get(&main);
@@ -681,6 +685,7 @@ fn record(path: &str, seed: u64, n: usize, kinds: &[String]) {
                 "shift": out_json(&get(&shifted), base + shift, tick, 1.0),
                 "scale": out_json(&get(&scaled), base, tick, 1.0 / scale),
                 "variant": variant.as_ref().map(|m| out_json(&get(m), base, tick, 1.0)).unwrap_or(json!({"c": "na", "e": 0, "t": 0, "keys": []})),
+                "composite": composite.as_ref().map(|m| out_json(&get(m), base, tick, 1.0)).unwrap_or(json!({"c": "na", "e": 0, "t": 0, "keys": []})),
             })).unwrap();
             if r.is_err() { break; }
         }
